@@ -27,7 +27,10 @@ def mixed_argument_runs(sc, rng, trials):
     md = os.path.join(sc, "mixedargs")
     if os.path.isdir(md):
         shutil.rmtree(md)
-    trees = {"dirA": ["a1.log", "sub/a2.log", "sub/deep/a3.log"] + ["many/f%02d.log" % q for q in range(25)],
+    common.build_harness(["mk_lz4"])
+    # (every stored form of a text log beneath a walked directory: found by the walk exactly as when named)
+    trees = {"dirA": ["a1.log", "sub/a2.log", "sub/deep/a3.log", "pk/z1.log.gz", "pk/z2.log.xz", "pk/z3.log.bz2", "pk/z4.log.lz4",
+                      "pk/z5.log.old.gz", "pk/z6.1.lz4"] + ["many/f%02d.log" % q for q in range(25)],
              "dirB": ["b1.log"], "dirC": ["x/c1.log", "y/c2.log"], "dirD": []}
     files = ["f1.log", "f2.log", "g/f3.log", "t.tar"]
     cont = {}
@@ -36,7 +39,8 @@ def mixed_argument_runs(sc, rng, trials):
         for fn in fl:
             blob = b"".join(b"2024-01-01T00:00:00 src=%s idx=%d\n" % ((dn + "/" + fn).encode(), q) for q in range(2))
             cont[dn + "/" + fn] = blob
-            gen.write(os.path.join(md, dn, fn), blob)
+            enc = {"gz": gen.gz_bytes, "xz": gen.xz_bytes, "bz2": gen.bz2_bytes, "lz4": gen.lz4_bytes}.get(fn.rsplit(".", 1)[-1])
+            gen.write(os.path.join(md, dn, fn), enc(blob) if enc else blob)
     for fn in files:
         blob = b"".join(b"2024-01-01T00:00:00 src=%s idx=%d\n" % (fn.encode(), q) for q in range(2))
         cont[fn] = blob
